@@ -1,5 +1,9 @@
 package main
 
+import (
+	"github.com/evolbioinfo/gotree/tree"
+)
+
 func init() { register("C20", c20) }
 
 // c20: the selection loops of cmd/sample.go and cmd/prune.go are unexported; the driver runs
@@ -8,7 +12,16 @@ func init() { register("C20", c20) }
 // source), from which the judge's model predicts the selection.  ShuffleTips is run here.
 func c20(c *Sexp) *Sexp {
 	switch c.Str("op") {
-	case "sample", "prune":
+	case "uniform":
+		// the "uniform" generator on the recorded stream (structure only; C16 also ties the lengths)
+		raw := rawStream(int64(c.Int("seed")), c.Int("nraw"))
+		t, err := tree.RandomUniformBinaryTree(c.Int("n"), c.Bool("rooted"))
+		if err != nil || t == nil {
+			return L(KV("raw", raw), KV("err", A(errStr(err))))
+		}
+		d, audit := ObserveTree(t)
+		return L(KV("raw", raw), KV("err", A("")), KV("tree", d), KV("audit", audit))
+	case "sample", "prune", "prunemulti":
 		return L(KV("raw", rawStream(int64(c.Int("seed")), c.Int("nraw"))))
 	case "shuffle":
 		t, err := BuildTree(c.Get("tree"))
